@@ -535,6 +535,11 @@ def type_lists(ctx):
     o = system(2)
     ok = setter('symbols', o, ['Al', 'Cu', 'Ni', 'Fe']) and o.attrs['_System__symbols'] == ('Al', 'Cu', 'Ni', 'Fe')
     ctx.ob('TYPE-LISTS', SYS + '::System.symbols.setter', 'more symbols than atom types are kept (they define further types)', bool(ok), node=ctx.fn(SYS, 'System.symbols', setter=True), key='more symbols')
+    # a list of names may be replaced by a shorter one (four names over two types in use, then two names): the old length is not carried over
+    o = system(2, symbols=('Al', 'Cu', 'Ni', 'Fe'))
+    ok = setter('symbols', o, ['Ag', 'Au']) and o.attrs['_System__symbols'] == ('Ag', 'Au') and getter('symbols', o) == ('Ag', 'Au') and getter('natypes', o) == 2
+    ctx.ob('TYPE-LISTS', SYS + '::System.symbols.setter', 'a longer list of symbols can be replaced by a shorter one that still names every type in use (the count of types follows)', bool(ok), str(o.attrs.get('_System__symbols')),
+           node=ctx.fn(SYS, 'System.symbols', setter=True), key='symbols shortened')
     o = system(2, symbols=('Al', 'Cu'))
     before = o.attrs['_System__masses']
     ok = (not setter('masses', o, [I(1), I(2), I(3)])) and o.attrs['_System__masses'] == before
